@@ -33,7 +33,7 @@ void h_waitout(void)
   IORA_CANARY("h_waitout: returns");
   __CPROVER_assert(!impl.syncMutex.held, "LK5 syncMutex released at return");
   __CPROVER_assert(impl.shuttingDown, "TW1 shuttingDown is set (CV1: under syncMutex; CV2: before any waiter is notified - shim obligations)");
-  __CPROVER_assert(!impl0.pendingConnects.present || G_wop.cv.n_all == wop_n0 + 1, "TW2 EVERY parked connectSync (witness record) is notified exactly once");
+  __CPROVER_assert(G_wop.cv.n_all <= wop_n0 + 1, "TW2 a parked connectSync is notified at most once by the handshake (THAT it is notified on every teardown path is decided at the path ends: TP4, TD8)");
   __CPROVER_assert(!impl0.receiveBuffers.present || G_wbuf.cv.n_all == wbuf_n0 + (notifyReceive ? 1u : 0u), "TW3 every receive buffer's condition variable is notified iff notifyReceive");
   __CPROVER_assert(COUNTERS_ZERO(impl), "TW4 the handshake returns ONLY when no parked receiveSync, no parked connectSync and no flusher remains (its wait predicate is exactly the three counters)");
   __CPROVER_assert(MAPS_SAME(impl, impl0) && SAME_BUF(G_wbuf, w0) && G_wop.done == wop_done0, "TW5 the handshake itself modifies neither the maps nor any record (it only notifies)");
@@ -83,6 +83,7 @@ void h_dtor(void)
     return;
   }
   __CPROVER_assert(!impl.syncMutex.held && impl.shuttingDown && COUNTERS_ZERO(impl), "TD1 on EVERY path the destructor body ends with the fence set and no parked / in-flight sync operation left");
+  __CPROVER_assert(!impl0.pendingConnects.present || G_wop.cv.n_all >= wop_n0 + 1, "TD8 on EVERY teardown path (also the I/O-thread self-destruct branch, which does not go through the fence) every parked connectSync has been notified - else it sleeps until its own timeout while the handshake waits for activeConnects == 0");
   if (G_on_io_thread)
   {
     IORA_CANARY("h_dtor: on the I/O thread (sole owner released inside a callback)");
